@@ -1,3 +1,6 @@
+#[cfg(llg_verif)]
+use crate::verif_hooks::std_shim as std;
+
 use std::sync::{Arc, Mutex};
 
 use anyhow::Result;
